@@ -385,6 +385,14 @@ Theorem monitor_sound_workers : forall c,
 Proof. exact ProofsCheck.prop_ok_workers_sound. Qed.
 Print Assumptions monitor_sound_workers.
 
+(* ... and for Limit / TimeoutLimit / MaxConnsHandler cases (directly, through the rest engine, with
+   hijacked connections): an accepted log never has more than n route handlers inside at any prefix. *)
+Theorem monitor_sound_limit : forall c n sc,
+  Check.ckind c = Check.KLim n sc -> Check.prop_ok1 c = true ->
+  forall p q, Check.clog c = p ++ q -> (ProofsCheck.inside_after p <= Z.of_nat n)%Z.
+Proof. exact ProofsCheck.prop_ok_lim_sound. Qed.
+Print Assumptions monitor_sound_limit.
+
 (* ------------------------------------------------------------------ *)
 (* non-vacuity *)
 
